@@ -1,5 +1,5 @@
 (* C17 correspondence: race-detector scenarios run by harness/c17 against the real services. *)
-From Verif Require Export Lib.Base Lib.Lockset Gen.C17_Extracted.
+From Verif Require Export Lib.Base Lib.Lockset Lib.LocksetX Gen.C17_Extracted.
 From Coq Require Export String.
 
 Record case := {
@@ -23,10 +23,20 @@ Definition P_b (c : case) : bool := negb (c_race c) && negb (c_hang c).
 Definition service_known (name : string) : bool :=
   existsb (fun '(n, _, _, _, _) => String.eqb n name) services.
 
+Definition service_order_ok (name : string) : bool :=
+  match find (fun '(n, _, _, _, _) => String.eqb n name) services with
+  | Some (_, g, e, _, _) => lock_order_ok g e
+  | None => false
+  end.
+
 (* model and implementation agree: a service the analysis accepts (race free and lock balanced in
-   every interleaving, C17_tree_race_free_partial) shows neither a race nor a hang in its scenario;
+   every interleaving, C17_tree_dynamic_race_free_partial) shows no race in its scenario, and if its
+   lock order is consistent too (C17_tree_deadlock_free_partial) no hang either;
    a scenario naming a service that is not extracted never agrees *)
-Definition agree (c : case) : bool := implb (service_ok (c_service c)) (P_b c) && service_known (c_service c).
+Definition agree (c : case) : bool :=
+  implb (service_ok (c_service c)) (negb (c_race c)) &&
+  implb (service_ok (c_service c) && service_order_ok (c_service c)) (negb (c_hang c)) &&
+  service_known (c_service c).
 
 Definition mismatches (cs : list case) : list N := failing_ids c_id agree cs.
 Definition violations (cs : list case) : list N := failing_ids c_id P_b cs.
@@ -35,4 +45,9 @@ Definition violations (cs : list case) : list N := failing_ids c_id P_b cs.
 Definition tree_report :=
   map (fun '(n, g, e, sk, sg) =>
          let '(bad, cf) := report sk sg g e in
-         (n, analysis_ok sk sg g e, bad, nodup N.eq_dec (map (fun '((f1, _, _, _), _) => f1) cf))) services.
+         (n, analysis_ok sk sg g e, bad, nodup N.eq_dec (map (fun '((f1, _, _, _), _) => f1) cf),
+          discipline_ok sk sg (graph_accesses g e), lock_order_ok g e)) services.
+
+(* the (field, mutex) guard pairs of every service *)
+Definition tree_guards :=
+  map (fun '(n, g, e, _, _) => (n, guard_table (graph_accesses g e))) services.
